@@ -7,6 +7,7 @@ Props/C18RelocText.lean — C18-R1 (relocation) for source text.
 * `C18_R1_code` is the value-level form: code bytes and symbol table.
 -/
 import CoCoVerif.Props.C18RelocSrc
+import CoCoVerif.Lemmas.RelocCheck
 
 namespace CoCo.Props
 open CoCo CoCo.Asm
@@ -137,6 +138,21 @@ theorem C18_R1_code {fs : Files} {la lb : List Str} {D : Nat} {A B : Assembly}
   obtain ⟨lab, n, rest, hl, hn, hla⟩ := hhead
   obtain ⟨hrel, hinc⟩ := parseLines_shift la lb _ _ hsh.pw stA.hparse stB.hparse
   exact C18_R1_parsed_code stA.hparse stB.hparse hrel hinc (head_org hl hn hla stA.hparse) stA stB
+
+/-- C18-R1, value level, for source text, the third class (`MovedMod`): conclusions as in
+`C18_R1_parsed_code_mod` -/
+theorem C18_R1_code_mod {fs : Files} {la lb : List Str} {D : Nat} {A B : Assembly}
+    (hsh : ShiftOrgP D (OrgOk D) la lb)
+    (hhead : ∃ lab n rest, lab.all isLabelCh = true ∧ n < 65536 ∧ la = orgLine lab n :: rest)
+    (stA : Stages fs la A) (stB : Stages fs lb B) :
+    ∀ (i : Nat) (s4 t t' : Stmt), stA.ss4[i]? = some s4 → A.stmts[i]? = some t → B.stmts[i]? = some t' →
+      MovedMod D stA.ss4 s4 → t'.pkg.additional = shiftVmod D t.pkg.additional ∧
+        ∀ bs, stmtBytes t = some bs →
+          ∃ pre x, t.pkg.additional.int? = some x ∧ x < 65536 ∧ bs = pre ++ [x / 256, x % 256] ∧
+            stmtBytes t' = some (pre ++ [(x + D) % 65536 / 256, (x + D) % 65536 % 256]) := by
+  obtain ⟨lab, n, rest, hl, hn, hla⟩ := hhead
+  obtain ⟨hrel, hinc⟩ := parseLines_shift la lb _ _ hsh.pw stA.hparse stB.hparse
+  exact C18_R1_parsed_code_mod stA.hparse stB.hparse hrel hinc (head_org hl hn hla stA.hparse) stA stB
 
 /-! ## the statement of Props/C18.lean is false -/
 
@@ -272,6 +288,86 @@ example : ∃ A B, assemble [] relocA = .ok A ∧ assemble [] relocB = .ok B ∧
   have h3 := (C18_R1_code reloc_shift hhd stA stB).2.2.1
   exact ⟨A, B, hA, hB, by simpa using cA, by simpa using cB, h1, h2, h3⟩
 
+/-! ## signed constants (repair batch B2): `label + N`, `label - N` with a negative EQU -/
+
+/-- the body of the signed sample program: `N` is MINUS two; `A+N` in an FDB, `A-N` in a 16-bit immediate,
+`A+N` as a PCR target -/
+def signedBody : List Str :=
+  ["N EQU -2\n", "A FDB A+N\n", " LDX #A-N\n", " LEAX A+N,PCR\n"].map String.toList
+
+def signedA : List Str := orgLine [] 0x0100 :: signedBody
+def signedB : List Str := orgLine [] 0x0200 :: signedBody
+
+example : signedA.head? = some " ORG $0100\n".toList := by decide
+example : signedB.head? = some " ORG $0200\n".toList := by decide
+
+set_option maxRecDepth 1000000 in
+theorem signedBody_ok : signedBody.all lineOkB = true := by decide
+
+theorem signed_shift : ShiftOrgP 0x100 (OrgOk 0x100) signedA signedB :=
+  shiftOrgP_single [] 0x0100 signedBody (by decide) (by unfold OrgOk; omega) (by omega) signedBody_ok
+
+/-- the images, evaluated: `FDB A+N` is `A - 2` (`00FE` / `01FE`; before B2 the sign was dropped: `0102`),
+`LDX #A-N` is `A + 2` (`8E 0102` / `8E 0202`); both move by `$100`.  `LEAX A+N,PCR` (`30 8C F6`: from `$0108` back to
+`$00FE`) does not move. -/
+def signedImageA : Bytes := [0x00, 0xFE, 0x8E, 0x01, 0x02, 0x30, 0x8C, 0xF6]
+def signedImageB : Bytes := [0x01, 0xFE, 0x8E, 0x02, 0x02, 0x30, 0x8C, 0xF6]
+
+set_option maxRecDepth 1000000 in
+theorem signedA_ok : checkProgram signedA (fun A => A.image == some signedImageA) = true := by decide
+set_option maxRecDepth 1000000 in
+theorem signedB_ok : checkProgram signedB (fun A => A.image == some signedImageB) = true := by decide
+
+set_option maxRecDepth 1000000 in
+/-- every statement that enters `fixAll` is in one of the two classes (evaluated with the Bool versions of the
+classes, Lemmas/RelocCheck.lean) -/
+theorem signedA_cover : (stage4 signedA).map (coverB 0x100) = some true := by decide
+
+set_option maxRecDepth 1000000 in
+/-- statement by statement (`unmovedB`, `movedB`): ORG, EQU and `LEAX A+N,PCR` are `Unmoved`; `FDB A+N` and `LDX #A-N`
+are `Moved` -/
+theorem signedA_classes :
+    (stage4 signedA).map (fun as => as.map (fun s => (unmovedB 0x100 as s, movedB 0x100 as s)))
+      = some [(true, false), (true, false), (false, true), (false, true), (true, false)] := by decide
+
+/-- the signed sample program relocated by `$100`: both assemble to the images above; the hypotheses of `C18_R1_code`
+hold; EVERY statement that enters `fixAll` is in one of the two classes (so `reloc_fixAll` / `reloc_finish` speak
+about the whole program), and statement by statement the operand field is identical (`Unmoved`) or moved by `$100`
+(`Moved`) — with a NEGATIVE constant `N` in `A+N`, `A-N` and `A+N,PCR` -/
+theorem reloc_signed_witness : ∃ A B, assemble [] signedA = .ok A ∧ assemble [] signedB = .ok B ∧
+    A.image = some signedImageA ∧ B.image = some signedImageB ∧
+    PW (AddrShift 0x100) A.stmts B.stmts ∧
+    ∀ (stA : Stages [] signedA A),
+      (∀ (i : Nat) (s : Stmt), stA.ss4[i]? = some s → Unmoved 0x100 stA.ss4 s ∨ Moved 0x100 stA.ss4 s) ∧
+      ∀ (i : Nat) (s4 t t' : Stmt), stA.ss4[i]? = some s4 → A.stmts[i]? = some t → B.stmts[i]? = some t' →
+        (Unmoved 0x100 stA.ss4 s4 ∧ t'.pkg.additional = t.pkg.additional ∧ stmtBytes t' = stmtBytes t) ∨
+        (Moved 0x100 stA.ss4 s4 ∧ t'.pkg.additional = shiftV 0x100 t.pkg.additional) := by
+  obtain ⟨A, hA, cA⟩ := checkProgram_sound signedA_ok []
+  obtain ⟨B, hB, cB⟩ := checkProgram_sound signedB_ok []
+  have hhd : ∃ lab n rest, lab.all isLabelCh = true ∧ n < 65536 ∧ signedA = orgLine lab n :: rest :=
+    ⟨[], 0x0100, signedBody, by decide, by omega, rfl⟩
+  obtain ⟨stB⟩ := assemble_stages hB
+  have hcov : ∀ (stA : Stages [] signedA A) (i : Nat) (s : Stmt), stA.ss4[i]? = some s →
+      Unmoved 0x100 stA.ss4 s ∨ Moved 0x100 stA.ss4 s := by
+    intro stA
+    have hc := signedA_cover
+    cases h4 : stage4 signedA with
+    | none => rw [h4] at hc; cases hc
+    | some x =>
+      rw [h4] at hc
+      simp only [Option.map_some, Option.some.injEq] at hc
+      rw [stage4_eq stA h4]
+      exact coverB_sound hc
+  obtain ⟨stA0⟩ := assemble_stages hA
+  refine ⟨A, B, hA, hB, by simpa using cA, by simpa using cB, (C18_R1_code signed_shift hhd stA0 stB).2.2.1, ?_⟩
+  intro stA
+  refine ⟨hcov stA, ?_⟩
+  intro i s4 t t' hs4 ht ht'
+  obtain ⟨hu, hm⟩ := (C18_R1_code signed_shift hhd stA stB).2.2.2.1 i s4 t t' hs4 ht ht'
+  rcases hcov stA i s4 hs4 with hc | hc
+  · exact .inl ⟨hc, hu hc⟩
+  · exact .inr ⟨hc, (hm hc).1⟩
+
 /-! ## why the side conditions are there (evaluated counterexamples) -/
 
 /-- the program is rejected with a diagnostic -/
@@ -364,5 +460,92 @@ theorem reloc_narrow_field :
       (check := fun A => A.image == some [0x10]) (by decide) []
     exact ⟨A, hA, by simpa using c⟩
   · exact checkDiag_sound (by decide) []
+
+/-- the body of the wrap-around sample: `A+N` with `N EQU -384` is negative when `A` is at `$0100` -/
+def wrapBody : List Str := ["N EQU -384\n", "A FDB A+N\n", " LDX #A+N\n"].map String.toList
+def wrapA : List Str := orgLine [] 0x0100 :: wrapBody
+def wrapB : List Str := orgLine [] 0x0200 :: wrapBody
+
+example : wrapA = lines [" ORG $0100\n", "N EQU -384\n", "A FDB A+N\n", " LDX #A+N\n"] := by decide
+example : wrapB = lines [" ORG $0200\n", "N EQU -384\n", "A FDB A+N\n", " LDX #A+N\n"] := by decide
+
+set_option maxRecDepth 1000000 in
+theorem wrapA_ok : checkProgram wrapA (fun A => A.image == some [0xFF, 0x80, 0x8E, 0xFF, 0x80]) = true := by decide
+set_option maxRecDepth 1000000 in
+theorem wrapB_ok : checkProgram wrapB (fun A => A.image == some [0x00, 0x80, 0x8E, 0x00, 0x80]) = true := by decide
+
+/-- (v) signed constants (repair batch B2), outside the class `Moved`: `A+N` with `N EQU -384` and `A` at `$0100` has
+the NEGATIVE value `-$80`.  `calculate_address_offset` does not reduce `label + N` modulo `$10000` (it does reduce
+`label - N`), so the value is a negative number, which `fit_operand_width` stores in two's complement: `FF80`.  At
+`$0200` the value is `$0080`.  Both programs are accepted and the 16-bit field moves by `D` MODULO `$10000`
+(`reloc_fixFit_label_plus_mod`, class `MovedMod`), not by `D`: this is why `Moved` (`NumExpr`) asks for a value that
+is not negative. -/
+theorem reloc_signed_wrap :
+    (∃ A, assemble [] wrapA = .ok A ∧ A.image = some [0xFF, 0x80, 0x8E, 0xFF, 0x80]) ∧
+    (∃ B, assemble [] wrapB = .ok B ∧ B.image = some [0x00, 0x80, 0x8E, 0x00, 0x80]) := by
+  constructor
+  · obtain ⟨A, hA, c⟩ := checkProgram_sound wrapA_ok []
+    exact ⟨A, hA, by simpa using c⟩
+  · obtain ⟨B, hB, c⟩ := checkProgram_sound wrapB_ok []
+    exact ⟨B, hB, by simpa using c⟩
+
+set_option maxRecDepth 1000000 in
+/-- the classes of the wrap-around sample, statement by statement (`unmovedB`, `movedB`, `movedModB`): ORG and EQU are
+`Unmoved`; `FDB A+N` and `LDX #A+N` are in NEITHER of the two old classes, they are `MovedMod` -/
+theorem wrapA_classes :
+    (stage4 wrapA).map (fun as => as.map (fun s => (unmovedB 0x100 as s, movedB 0x100 as s, movedModB 0x100 as s)))
+      = some [(true, false, false), (true, false, false), (false, false, true), (false, false, true)] := by decide
+
+set_option maxRecDepth 1000000 in
+theorem wrapA_cover : (stage4 wrapA).map (coverModB 0x100) = some true := by decide
+
+theorem wrap_shift : ShiftOrgP 0x100 (OrgOk 0x100) wrapA wrapB :=
+  shiftOrgP_single [] 0x0100 wrapBody (by decide) (by unfold OrgOk; omega) (by omega) (by decide)
+
+/-- the wrap-around sample under the three-class theorems: every statement that enters `fixAll` is `Unmoved`, `Moved`
+or `MovedMod` (so `reloc_fixAll_mod` / `reloc_finish_mod` speak about the whole program), and for the `MovedMod`
+statements the operand field moves by `$100` modulo `$10000` (`C18_R1_code_mod`) -/
+theorem reloc_signed_wrap_witness : ∃ A B, assemble [] wrapA = .ok A ∧ assemble [] wrapB = .ok B ∧
+    ∀ (stA : Stages [] wrapA A),
+      (∀ (i : Nat) (s : Stmt), stA.ss4[i]? = some s →
+        Unmoved 0x100 stA.ss4 s ∨ Moved 0x100 stA.ss4 s ∨ MovedMod 0x100 stA.ss4 s) ∧
+      ∀ (i : Nat) (s4 t t' : Stmt), stA.ss4[i]? = some s4 → A.stmts[i]? = some t → B.stmts[i]? = some t' →
+        MovedMod 0x100 stA.ss4 s4 → t'.pkg.additional = shiftVmod 0x100 t.pkg.additional := by
+  obtain ⟨A, hA, _⟩ := checkProgram_sound wrapA_ok []
+  obtain ⟨B, hB, _⟩ := checkProgram_sound wrapB_ok []
+  obtain ⟨stB⟩ := assemble_stages hB
+  have hhd : ∃ lab n rest, lab.all isLabelCh = true ∧ n < 65536 ∧ wrapA = orgLine lab n :: rest :=
+    ⟨[], 0x0100, wrapBody, by decide, by omega, rfl⟩
+  refine ⟨A, B, hA, hB, ?_⟩
+  intro stA
+  constructor
+  · have hc := wrapA_cover
+    cases h4 : stage4 wrapA with
+    | none => rw [h4] at hc; cases hc
+    | some x =>
+      rw [h4] at hc
+      simp only [Option.map_some, Option.some.injEq] at hc
+      rw [stage4_eq stA h4]
+      exact coverModB_sound hc
+  · intro i s4 t t' hs4 ht ht' hc
+    exact (C18_R1_code_mod wrap_shift hhd stA stB i s4 t t' hs4 ht ht' hc).1
+
+/-- (vi) signed constants, outside the class `Unmoved`: a PCR operand whose target `A+N` is NEGATIVE.  With
+`N EQU -258` and `A` at `$0100` the target is `-2`; `fix_addresses` takes the magnitude of the value (`.int`), aims at
+`+2`, and stores the displacement `2 - $0104 = $FEFE`.  At `$0200` the target is `$00FE` and the displacement is
+`$00FE - $0204 = $FEFA` (the right one in both places).  The code of a PCR operand changes under relocation: this is
+why the PCR case of `Unmoved` (`NumExpr`) asks for a target that is not negative. -/
+theorem reloc_signed_pcr_negative_target :
+    (∃ A, assemble [] (lines [" ORG $0100\n", "N EQU -258\n", "A LEAX A+N,PCR\n"]) = .ok A ∧
+      A.image = some [0x30, 0x8D, 0xFE, 0xFE]) ∧
+    (∃ B, assemble [] (lines [" ORG $0200\n", "N EQU -258\n", "A LEAX A+N,PCR\n"]) = .ok B ∧
+      B.image = some [0x30, 0x8D, 0xFE, 0xFA]) := by
+  constructor
+  · obtain ⟨A, hA, c⟩ := checkProgram_sound (lines := lines [" ORG $0100\n", "N EQU -258\n", "A LEAX A+N,PCR\n"])
+      (check := fun A => A.image == some [0x30, 0x8D, 0xFE, 0xFE]) (by decide) []
+    exact ⟨A, hA, by simpa using c⟩
+  · obtain ⟨B, hB, c⟩ := checkProgram_sound (lines := lines [" ORG $0200\n", "N EQU -258\n", "A LEAX A+N,PCR\n"])
+      (check := fun A => A.image == some [0x30, 0x8D, 0xFE, 0xFA]) (by decide) []
+    exact ⟨B, hB, by simpa using c⟩
 
 end CoCo.Props
